@@ -52,14 +52,14 @@ type c11Case struct {
 
 func c11Key(i int) (object.Object, gt.Val) {
 	switch i {
-	case 0:
-		return object.Integer{Value: 1}, int64(1)
+	case 0: // a negative integer and (key 3) a float between it and the integer below: same integer part, negative fraction
+		return object.Integer{Value: -1}, int64(-1)
 	case 1:
 		return object.Integer{Value: 2}, int64(2)
 	case 2:
 		return object.Float{Value: 2.0}, float64(2)
 	case 3:
-		return object.Float{Value: 2.5}, 2.5
+		return object.Float{Value: -1.5}, -1.5
 	case 4:
 		return object.String{Value: "a"}, "a"
 	case 5:
@@ -287,7 +287,7 @@ func (p c11) runOps(c *fw.Ctx, ops []c11Op, universe int, checkEvery bool) {
 // ---- language level ----
 
 func c11KeySrc(i int) string {
-	return []string{"1", "2", "2.0", "2.5", `"a"`, "true", "nil", "[1]", `"b"`, `"zz"`, "[1, 2, 3]", "0.5"}[i]
+	return []string{"1", "2", "2.0", "2.5", `"a"`, "true", "nil", "[1]", "(-1)", "(-1.5)", "[1, 2, 3]", "0.5"}[i]
 }
 
 func (p c11) langSession(c *fw.Ctx) {
@@ -420,9 +420,9 @@ func c11LangKey(i int) gt.Val {
 	case 7:
 		return &gt.Arr{E: []gt.Val{int64(1)}}
 	case 8:
-		return "b"
+		return int64(-1)
 	case 9:
-		return "zz"
+		return -1.5
 	case 10:
 		return &gt.Arr{E: []gt.Val{int64(1), int64(2), int64(3)}}
 	}
